@@ -83,10 +83,17 @@ def space_A(tier):
             yield names, [t1, t2]
 
 
+def payload(issue):
+    """what an issue says: its dataclass fields (other instance attributes are bookkeeping the statement does not speak about)"""
+    import dataclasses
+
+    return {f.name: str(getattr(issue, f.name)) for f in dataclasses.fields(issue) if f.name != "rules"}
+
+
 def issues_of(issues):
     out = []
     for i in issues:
-        extra = {k: str(v) for k, v in vars(i).items() if k != "rules"}
+        extra = payload(i)
         out.append((type(i).__name__, tuple(sorted(str(r.title) for r in i.rules)), tuple(sorted(extra.items()))))
     return sorted(out)
 
@@ -303,7 +310,7 @@ def issues_C(issues, index):
     """rules of an issue are identified by object identity (index: id(rule object) -> position in the collection)"""
     out = []
     for i in issues:
-        extra = {k: str(v) for k, v in vars(i).items() if k != "rules"}
+        extra = payload(i)
         out.append((type(i).__name__, tuple(sorted(f"rule#{index.get(id(r), '?')}" for r in i.rules)), tuple(sorted(extra.items()))))
     return sorted(out)
 
